@@ -1,6 +1,6 @@
 SPECIFICATION Spec
 CONSTANTS Configs <- MCConfigsQ OptNames <- MCOptNames SecNames <- MCSecNames Values <- MCValues
-          Decos <- MCDecos MaxNodes = 3 MaxDepth = 2
+          Decos <- MCDecos MaxNodes = 2 MaxDepth = 2
 VIEW View
 INVARIANTS TypeOK
 CHECK_DEADLOCK FALSE
